@@ -421,12 +421,14 @@ impl<'a> Gen<'a> {
             }
             9 => SymReq::flush(pick(self.rng, &p, op::FLUSH, op::FLUSHQ), if self.rng.chance(1, 2) { None } else { Some(0) }),
             10 => {
-                let d = match self.rng.below(5) {
+                let d = match self.rng.below(6) {
                     0 => 1,
                     1 => 2,
                     2 => self.rng.range(1, 10) as u32,
                     3 => self.rng.range(10, 1000) as u32,
-                    _ => self.rng.range(1000, 1_000_000) as u32,
+                    4 => self.rng.range(1000, 1_000_000) as u32,
+                    // the extremes of the field (a delay is a number of seconds like any other)
+                    _ => *self.rng.pick(&[u32::MAX, u32::MAX - 1, 0x8000_0000, 0x7fff_ffff]),
                 };
                 self.ttl_hints.push(d as u64);
                 SymReq::flush(pick(self.rng, &p, op::FLUSH, op::FLUSHQ), Some(d))
